@@ -45,6 +45,8 @@ var (
 	ErrInt64UnderflowsUint64 = errors.New("int64 underflows uint64")
 	// ErrFloat64UnderflowsUint64 is returned if when converting an float6464 to a uint64 underflow uint64
 	ErrFloat64UnderflowsUint64 = errors.New("float64 underflows uint64")
+	// ErrFloat64OverflowsUint64 is returned if when converting a float64 that is not a number or too large for uint64
+	ErrFloat64OverflowsUint64 = errors.New("float64 overflows uint64")
 	// ErrDivideByZero is returned if a coin amount is distributed over zero parts
 	ErrDivideByZero = errors.New("divide by zero")
 )
@@ -201,6 +203,11 @@ func Int64ToCoin(a int64) (Coin, error) {
 func Float64ToCoin(a float64) (Coin, error) {
 	if a < 0 {
 		return 0, ErrFloat64UnderflowsUint64
+	}
+	// NaN, +Inf and values of 2^64 or more have no uint64 representation; the
+	// conversion below would yield an implementation-defined amount for them.
+	if math.IsNaN(a) || a >= 1<<64 {
+		return 0, ErrFloat64OverflowsUint64
 	}
 	return Coin(a), nil
 }
